@@ -53,8 +53,45 @@ def _worker_init():
     signal.signal(signal.SIGINT, signal.SIG_IGN)
 
 
+def _in_child(fn, args, what='task'):
+    """Run fn(*args) in a forked child of this (pristine) process and return its result: nothing a
+    chunk evaluates can leak into the next chunk, so a chunk is a pure function of (seed, stream, lo, hi)."""
+    import pickle
+    r, w = os.pipe()
+    sys.stdout.flush()
+    pid = os.fork()
+    if pid == 0:
+        os.close(r)
+        try:
+            try:
+                res = ('ok', fn(*args))
+            except BaseException:
+                res = ('exc', traceback.format_exc())
+            with os.fdopen(w, 'wb') as fh:
+                pickle.dump(res, fh, protocol=pickle.HIGHEST_PROTOCOL)
+        finally:
+            os._exit(0)
+    os.close(w)
+    with os.fdopen(r, 'rb') as fh:
+        data = fh.read()
+    os.waitpid(pid, 0)
+    if not data:
+        raise HarnessError('%s: child process died without a result' % what)
+    status, val = pickle.loads(data)
+    if status != 'ok':
+        raise HarnessError('%s failed in the harness:\n%s' % (what, val))
+    return val
+
+
 def _chunk(prop, stream, seed, tier, lo, hi, cfg, statedir, want_samples):
+    return _in_child(_chunk_body, (prop, stream, seed, tier, lo, hi, cfg, statedir, want_samples),
+                     'chunk %s[%d:%d]' % (stream, lo, hi))
+
+
+def _chunk_body(prop, stream, seed, tier, lo, hi, cfg, statedir, want_samples, only_last=False):
     """Run scenarios lo..hi-1 of one stream.  Returns a picklable summary."""
+    from . import cleanroom
+    cleanroom.ensure()          # this process has evaluated nothing yet
     mod = load_check(prop)
     stats = Counter()
     digests = set()
@@ -72,12 +109,13 @@ def _chunk(prop, stream, seed, tier, lo, hi, cfg, statedir, want_samples):
             sc['_stream'] = stream
             sc['_run'] = i
             sc['_seed'] = seed
+            sc['_chunk_lo'] = lo
             local = Counter()
             try:
                 vs = mod.execute(sc, local)
             except HarnessError:
                 raise
-            stats.update(local)
+            _merge(stats, local)
             stats['runs'] += 1
             d = mod.nontrivial(sc, local) if hasattr(mod, 'nontrivial') else canon.digest_int(_strip(sc))
             if isinstance(d, (tuple, list)):
@@ -107,13 +145,12 @@ def _chunk(prop, stream, seed, tier, lo, hi, cfg, statedir, want_samples):
 
 
 def _strip(sc):
-    return dict((k, v) for k, v in sc.items() if not k.startswith('_') or k in ('_stream', '_run', '_seed', '_shrink_execs'))  # noqa
+    return dict((k, v) for k, v in sc.items() if not k.startswith('_') or k in ('_stream', '_run', '_seed', '_shrink_execs', '_chunk_lo'))
 
 
 def _fails_same(prop, sc, invariant):
-    mod = load_check(prop)
     try:
-        vs = mod.execute(json.loads(json.dumps(sc)), Counter())
+        vs = _in_child(_single_body, (prop, json.loads(json.dumps(sc))), 'shrink candidate')
     except Exception:
         return False
     return any(v['invariant'] == invariant for v in vs)
@@ -143,6 +180,12 @@ def _shrink_task(prop, sc, invariant, max_exec):
 
 
 def _single(prop, sc):
+    return _in_child(_single_body, (prop, sc), 'replay')
+
+
+def _single_body(prop, sc):
+    from . import cleanroom
+    cleanroom.ensure()
     mod = load_check(prop)
     return mod.execute(sc, Counter())
 
@@ -234,7 +277,7 @@ def run_check(prop, tier, seed=None, workers=None, out=sys.stdout):
                     for sc, vs in r.get('violations', []):
                         found.append((sc, vs))
                     continue
-                total.update(r['stats'])
+                _merge(total, r['stats'])
                 digests.update(r['digests'])
                 reach.update(r['reach'])
                 samples.extend(r['samples'])
@@ -328,6 +371,34 @@ def run_check(prop, tier, seed=None, workers=None, out=sys.stdout):
                 except OSError:
                     pass
                 path, ok = path2, True
+            else:
+                try:
+                    os.unlink(path2)
+                except OSError:
+                    pass
+                # state outside the parser objects: the violation needs earlier runs of the same chunk.  A chunk is a
+                # pure function of (seed, stream, lo..): replay the shortest suffix of it that still fails
+                at, lo = big.get('_run'), big.get('_chunk_lo')
+                if at is not None and lo is not None and '_stream' in big:
+                    starts = []
+                    d = 1
+                    while at - d > lo:
+                        starts.append(at - d)
+                        d *= 2
+                    starts.append(lo)
+                    for st in starts:
+                        path3 = write_chunk_replay(prop, big['_stream'], seed, tier, st, at, v)
+                        if _verify_replay(prop, path3, timeout=1800):
+                            try:
+                                os.unlink(path)
+                            except OSError:
+                                pass
+                            path, ok = path3, True
+                            break
+                        try:
+                            os.unlink(path3)
+                        except OSError:
+                            pass
         replay_paths.append(path)
         replay_verified.append(ok)
     # a wall-clock verdict only counts when a fresh process confirms it
@@ -376,6 +447,15 @@ def run_check(prop, tier, seed=None, workers=None, out=sys.stdout):
     return 0
 
 
+def _merge(total, stats):
+    for k, v in stats.items():
+        if k.startswith('max_'):
+            if v > total.get(k, 0):
+                total[k] = v
+        else:
+            total[k] += v
+
+
 def _kill_pool(ex):
     procs = list(getattr(ex, '_processes', {}).values()) if getattr(ex, '_processes', None) else []
     ex.shutdown(wait=False, cancel_futures=True)
@@ -394,18 +474,38 @@ def _kill_pool(ex):
             pass
 
 
-def _verify_replay(prop, path):
+def write_chunk_replay(prop, stream, seed, tier, lo, at, violation):
+    body = {'property': prop, 'invariant': violation['invariant'], 'sig': violation.get('sig'),
+            'observed': violation.get('detail'),
+            'chunk_replay': {'stream': stream, 'seed': seed, 'tier': tier, 'from_run': lo, 'failing_run': at},
+            'how': 'runs from_run..failing_run of the stream are regenerated from the seed and executed in order in one '
+                   'fresh process; the violation is reported by failing_run'}
+    text = json.dumps(body, indent=1, sort_keys=True, ensure_ascii=True)
+    h = hashlib.blake2b(text.encode('ascii'), digest_size=6).hexdigest()
+    d = os.environ.get('HXSIM_REPLAY_DIR') or os.path.join(VERIF, 'replays')
+    os.makedirs(d, exist_ok=True)
+    path = os.path.join(d, '%s-%s-%s.json' % (prop, violation['invariant'], h))
+    with open(path, 'w') as fh:
+        fh.write(text + '\n')
+    return path
+
+
+def _verify_replay(prop, path, timeout=600):
     """Re-execute a replay file in a fresh interpreter; True iff it reports the violation again."""
     import subprocess
     try:
         p = subprocess.run([sys.executable, os.path.join(VERIF, 'check'), prop, '--replay', path],
-                           stdout=subprocess.PIPE, stderr=subprocess.PIPE, timeout=600)
+                           stdout=subprocess.PIPE, stderr=subprocess.PIPE, timeout=timeout)
     except Exception:
         return False
     return p.returncode == 1 and b'VIOLATION' in p.stdout
 
 
 def _call(prop, fn_name, arg):
+    return _in_child(_call_body, (prop, fn_name, arg), 'task %s' % fn_name)
+
+
+def _call_body(prop, fn_name, arg):
     mod = load_check(prop)
     return getattr(mod, fn_name)(arg)
 
@@ -468,11 +568,24 @@ def extra_cov(extra):
 
 def replay(prop, path, out=sys.stdout):
     warm_up()
+    from . import cleanroom
+    cleanroom.ensure()
     mod = load_check(prop)
     with open(path) as fh:
         sc = json.load(fh)
     want = sc.get('invariant')
-    vs = mod.execute(sc, Counter())
+    if 'chunk_replay' in sc:
+        cr = sc['chunk_replay']
+        cfg = mod.config(cr['tier'], cr['seed']) if hasattr(mod, 'config') else {}
+        cfg.setdefault('tier', cr['tier'])
+        vs = []
+        for i in range(cr['from_run'], cr['failing_run'] + 1):
+            rng = seeds.rng_for(cr['seed'], prop + '/' + cr['stream'], i)
+            one = mod.gen(cr['stream'], rng, i, cfg)
+            one['_stream'], one['_run'], one['_seed'] = cr['stream'], i, cr['seed']
+            vs = mod.execute(one, Counter())
+    else:
+        vs = mod.execute(sc, Counter())
     hit = [v for v in vs if want is None or v['invariant'] == want]
     if hit:
         print('VIOLATION property=%s replay=%s' % (prop, path), file=out)
